@@ -1,5 +1,5 @@
 SPECIFICATION MCSpec
-CONSTANTS Classes = {1, 2, 3, 4}
+CONSTANTS Classes = {1, 2, 3, 4, 5}
   Codes = {0, 3, 5, 7}
   SortedHash = TRUE
   Full = FALSE
